@@ -176,6 +176,36 @@ def idnaDecode (o : Oracles) (raw : Str) : R Str := do
 def isDigitChar (o : Oracles) (c : Nat) : R Bool :=
   if c < 128 then pure (isDigitC c) else ask "isDigitU" [c] (o.isDigitU c)
 
+/-- `_encode_host` re-entered on the ASCII text an IDNA mapping produced (since fix 3fbf5b4: a host that only becomes an
+    IP-literal through the mapping, e.g. fullwidth digits).  Same code as `encodeHost` below; the IDNA step cannot be reached
+    again because `_idna_encode` answers with ASCII text (`….decode("ascii")`), so that branch is ValueError here. -/
+def encodeHostA (o : Oracles) (host : Str) (validate : Bool) : R Str := do
+  let looksIP ← (match host.getLast? with
+    | none => pure false
+    | some l => do
+      let d ← (if mem 58 host then pure true else isDigitChar o l : R Bool)
+      pure d : R Bool)
+  let ipResult : Option (R Str) :=
+    if looksIP then
+      let (rawIp, sep, zone) := partition 37 host
+      match parseIP rawIp with
+      | some ip =>
+        -- the zone id is copied verbatim, so with validation on it is checked like a reg-name
+        if validate && sep && notRegName (lower zone) then some (.error .valueError)
+        else match ip with
+          | .v6 h => some (pure (if sep then [91] ++ ipv6ToStr h ++ [37] ++ zone ++ [93] else [91] ++ ipv6ToStr h ++ [93]))
+          | .v4 ip => some (pure (if sep then ipv4ToStr ip ++ [37] ++ zone else ipv4ToStr ip))
+      | none => none
+    else none
+  match ipResult with
+  | some r => r
+  | none =>
+    if isAscii host then
+      let h := lower host
+      if validate && notRegName h then .error .valueError else pure h
+    else .error .valueError
+
+
 /-- `_encode_host(host, validate_host)` -/
 def encodeHost (o : Oracles) (host : Str) (validate : Bool) : R Str := do
   let looksIP ← (match host.getLast? with
@@ -203,6 +233,7 @@ def encodeHost (o : Oracles) (host : Str) (validate : Bool) : R Str := do
       if validate && notRegName h then .error .valueError else pure h
     else
       let h ← idnaEncode o host
-      if validate && notRegName h then .error .valueError else pure h
+      if mem 58 h then encodeHostA o h validate      -- the mapping produced an IP-literal: canonicalise it as one
+      else if validate && notRegName h then .error .valueError else pure h
 
 end Yarl
